@@ -107,6 +107,33 @@ def expected_annotation(t, and_name=None, depth=0):
     raise Unmappable(k)
 
 
+def _resolve_refs(a, L, depth=0):
+    """rebuild a typing object with ForwardRef('X') replaced by the package's definition X"""
+    import typing as _t
+
+    if depth > 40:
+        raise Unmappable("alias too deep")
+    if isinstance(a, (_t.ForwardRef, str)):
+        name = a.__forward_arg__ if isinstance(a, _t.ForwardRef) else a
+        tgt = getattr(L, name, None)
+        if tgt is None:
+            raise Unmappable("unresolvable reference %s" % name)
+        return _resolve_refs(tgt, L, depth + 1)
+    o = _t.get_origin(a)
+    if o is None:
+        return a
+    args = tuple(_resolve_refs(x, L, depth + 1) for x in _t.get_args(a))
+    if o is Union:
+        return Union[args]
+    if o in (collections.abc.Sequence,):
+        return Sequence[args[0]]
+    if o is dict:
+        return Dict[args[0], args[1]]
+    if o is tuple:
+        return Tuple[args]
+    return a
+
+
 VKINDS = {0: "none", 1: "integer_validator", 2: "uinteger_validator", 3: "instance_of(str)", 4: "instance_of(bool)", 5: "instance_of(float)", 6: "in_([literal])", 9: "other"}
 
 
@@ -155,15 +182,10 @@ def rows():
         a[(n, "", "defined")] = True
         if hasattr(L, n):
             b[(n, "", "defined")] = True
-    for n in SPEC.structs:
-        cls = getattr(L, n, None)
-        if not (isinstance(cls, type) and attrs.has(cls)):
-            if n != "LSPObject":
-                a[(n, "", "is_attrs_class")] = True
-            continue
+    def class_rows(n, cls, props):
         fields = {f.name: f for f in attrs.fields(cls)}
         seen_attrs = set()
-        for p in SPEC.flat_props(n):
+        for p in props:
             w = p["name"]
             attr = specmodel.snake(w)
             seen_attrs.add(attr)
@@ -197,4 +219,37 @@ def rows():
         for attr in fields:
             if attr not in seen_attrs:
                 b[(n, attr, "attribute")] = attr  # extra attribute: no spec row
+
+    for n in SPEC.structs:
+        cls = getattr(L, n, None)
+        if not (isinstance(cls, type) and attrs.has(cls)):
+            if n != "LSPObject":
+                a[(n, "", "is_attrs_class")] = True
+            continue
+        class_rows(n, cls, SPEC.flat_props(n))
+    # 'and' types (params / registrationOptions): one class with the union of the members' flattened properties
+    for msg, is_req in [(r, True) for r in SPEC.requests] + [(x, False) for x in SPEC.notifications]:
+        names = SPEC.message_names(msg, is_req)
+        for key, cname in (("params", (names[2] if is_req else names[0]) + "Params"), ("registrationOptions", names[0] + "Options")):
+            t = msg.get(key)
+            if isinstance(t, dict) and t["kind"] == "and":
+                a[(cname, "", "defined")] = True
+                cls = getattr(L, cname, None)
+                if isinstance(cls, type) and attrs.has(cls):
+                    b[(cname, "", "defined")] = True
+                    class_rows(cname, cls, SPEC.and_props(t))
+    # type aliases: the module-level object denotes the metamodel type (forward references resolved by name)
+    for n, al in SPEC.aliases.items():
+        if n in specmodel.ANY_ALIASES:
+            continue
+        obj = getattr(L, n, None)
+        if obj is None:
+            continue
+        try:
+            want = expected_annotation(al["type"])
+            got = _resolve_refs(obj, L)
+            a[(n, "", "alias_denotes")] = "ok"
+            b[(n, "", "alias_denotes")] = "ok" if got == want else "got %r, expected %r" % (got, want)
+        except Unmappable as e:
+            notes.append("alias %s: %s" % (n, e))
     return a, b, notes
